@@ -199,6 +199,10 @@ func (da *doubleArray) lookup(path string, params []Param, idx int) (*node, []Pa
 			indices = append(indices, (uint64(i)<<indexOffset)|(uint64(idx)&indexMask))
 		}
 		c := path[i]
+		if isStructuralCharacter(c) {
+			// a byte of the looked-up path never matches an edge that has a structural meaning in the trie
+			goto BACKTRACKING
+		}
 		if idx = nextIndex(da.bc[idx].Base(), c); idx >= len(da.bc) || da.bc[idx].Check() != c {
 			goto BACKTRACKING
 		}
@@ -216,7 +220,7 @@ BACKTRACKING:
 				break
 			}
 
-			next := NextSeparator(path, i)
+			next := nextPathSeparator(path, i)
 			nextParams := params
 			nextParams = append(nextParams, Param{Value: path[i:next]})
 			if nd, nextNextParams, found := da.lookup(path[next:], nextParams, nextIdx); found {
@@ -235,6 +239,20 @@ BACKTRACKING:
 }
 
 // build builds double-array from records.
+// isStructuralCharacter reports whether c labels structural edges of the trie (parameter,
+// wildcard, termination) or marks an empty slot (NUL), and hence cannot be matched literally.
+func isStructuralCharacter(c byte) bool {
+	return c == ParamCharacter || c == WildcardCharacter || c == TerminationCharacter || c == 0
+}
+
+// nextPathSeparator returns the end of the path segment starting at start in a looked-up path.
+func nextPathSeparator(path string, start int) int {
+	for start < len(path) && path[start] != SeparatorCharacter {
+		start++
+	}
+	return start
+}
+
 func (da *doubleArray) build(srcs []*record, idx, depth int, usedBase map[int]struct{}) error {
 	sort.Stable(recordSlice(srcs))
 	base, siblings, leaf, err := da.arrange(srcs, idx, depth, usedBase)
